@@ -257,12 +257,14 @@ func fetchScenario(ver int) *Scenario {
 			}
 			reads := []rb{
 				{0, kafka.ReadBatchConfig{MinBytes: 1, MaxBytes: 1 << 20}, true},
-				{4, kafka.ReadBatchConfig{MinBytes: 0, MaxBytes: 1}, true},
-				{0, kafka.ReadBatchConfig{MinBytes: 100, MaxBytes: 1000, IsolationLevel: kafka.ReadCommitted}, false},
+				{0, kafka.ReadBatchConfig{MinBytes: 100, MaxBytes: 1 << 16, IsolationLevel: kafka.ReadCommitted}, false},
 				{8, kafka.ReadBatchConfig{MinBytes: 1, MaxBytes: 1 << 30, MaxWait: 250 * ms}, false},
 				{11, kafka.ReadBatchConfig{MinBytes: 1 << 20, MaxBytes: 1 << 20, MaxWait: 1}, false},
 				{12, kafka.ReadBatchConfig{MinBytes: 1, MaxBytes: 4096, IsolationLevel: kafka.ReadUncommitted, MaxWait: 24 * time.Hour}, false},
 				{math.MaxInt64, kafka.ReadBatchConfig{MinBytes: 1, MaxBytes: 10}, false},
+				// last: a response cut inside a batch can make the Conn give up the connection
+				{0, kafka.ReadBatchConfig{MinBytes: 100, MaxBytes: 1000, IsolationLevel: kafka.ReadCommitted}, false},
+				{4, kafka.ReadBatchConfig{MinBytes: 0, MaxBytes: 1}, true},
 			}
 			for _, cfg := range []kafka.ConnConfig{
 				{ClientID: "fetcher", Topic: "t", Partition: 0},
@@ -276,6 +278,24 @@ func fetchScenario(ver int) *Scenario {
 				if conn == nil {
 					continue
 				}
+				// offsets: ListOffsets v1 with -2, -1 and explicit times; Seek variants send it too
+				e.do("ReadFirstOffset", func() error { _, err := conn.ReadFirstOffset(); return err })
+				e.do("ReadLastOffset", func() error { _, err := conn.ReadLastOffset(); return err })
+				e.do("ReadOffsets", func() error { _, _, err := conn.ReadOffsets(); return err })
+				for _, t := range []time.Time{time.UnixMilli(tsOf(5)), time.UnixMilli(0), time.UnixMilli(1), time.Unix(-1, 0), time.UnixMilli(1 << 40), {}, at(999 * us), time.Unix(0, math.MaxInt64)} {
+					t := t
+					e.do("ReadOffset", func() error { conn.SetDeadline(time.Now().Add(opTimeout)); _, err := conn.ReadOffset(t); return err })
+				}
+				for _, w := range []int{kafka.SeekStart, kafka.SeekEnd, kafka.SeekCurrent, kafka.SeekAbsolute} {
+					w := w
+					e.do("Seek", func() error { _, err := conn.Seek(2, w); return err })
+				}
+				e.do("ReadMessage", func() error {
+					conn.SetDeadline(time.Now().Add(opTimeout))
+					conn.Seek(0, kafka.SeekStart)
+					_, err := conn.ReadMessage(1 << 16)
+					return err
+				})
 				for i, r := range reads {
 					r := r
 					e.do(fmt.Sprintf("fetch %s/%d #%d", cfg.Topic, cfg.Partition, i), func() error {
@@ -297,24 +317,6 @@ func fetchScenario(ver int) *Scenario {
 						return b.Close()
 					})
 				}
-				// offsets: ListOffsets v1 with -2, -1 and explicit times; Seek variants send it too
-				e.do("ReadFirstOffset", func() error { _, err := conn.ReadFirstOffset(); return err })
-				e.do("ReadLastOffset", func() error { _, err := conn.ReadLastOffset(); return err })
-				e.do("ReadOffsets", func() error { _, _, err := conn.ReadOffsets(); return err })
-				for _, t := range []time.Time{time.UnixMilli(tsOf(5)), time.UnixMilli(0), time.UnixMilli(1), time.Unix(-1, 0), time.UnixMilli(1 << 40), {}, at(999 * us), time.Unix(0, math.MaxInt64)} {
-					t := t
-					e.do("ReadOffset", func() error { conn.SetDeadline(time.Now().Add(opTimeout)); _, err := conn.ReadOffset(t); return err })
-				}
-				for _, w := range []int{kafka.SeekStart, kafka.SeekEnd, kafka.SeekCurrent, kafka.SeekAbsolute} {
-					w := w
-					e.do("Seek", func() error { _, err := conn.Seek(2, w); return err })
-				}
-				e.do("ReadMessage", func() error {
-					conn.SetDeadline(time.Now().Add(opTimeout))
-					conn.Seek(0, kafka.SeekStart)
-					_, err := conn.ReadMessage(1 << 16)
-					return err
-				})
 				conn.Close()
 			}
 		},
@@ -346,7 +348,11 @@ func adminScenario(p profile) *Scenario {
 				e.do("Controller", func() error { _, err := conn.Controller(); return err })
 				for _, topics := range [][]string{nil, {}, {"t"}, {""}, {"t", "topic3", longTopic, utfTopic, ""}, {"missing"}, manyTopics(60)} {
 					topics := topics
-					e.do("ReadPartitions", func() error { conn.SetDeadline(time.Now().Add(opTimeout)); _, err := conn.ReadPartitions(topics...); return err })
+					e.do("ReadPartitions", func() error {
+						conn.SetDeadline(time.Now().Add(opTimeout))
+						_, err := conn.ReadPartitions(topics...)
+						return err
+					})
 				}
 				creates := [][]kafka.TopicConfig{
 					{},
